@@ -418,6 +418,14 @@ def _run_node(node):
 # ---- code -> spec: random generated nodes
 
 def _random_node(seed):
+    try:
+        return _random_node_(seed)
+    except Exception as e:      # (frappy exceptions do not unpickle in the parent process)
+        import traceback
+        raise MachineryError(f'random node {seed}: {e!r}\n{traceback.format_exc()[-1500:]}') from None
+
+
+def _random_node_(seed):
     rnd = random.Random(seed)
     dc.boot()
     shape = dc.rand_shape(rnd)
@@ -444,7 +452,7 @@ def _random_node(seed):
     for m, accs in shape.items():
         for a in accs.values():
             if not a.get('islimit') and not a.get('feature') and rnd.random() < 0.4:
-                a['props'] = {'description': rnd.choice(['first line\n\nmore text', 'short', 'ünïcode']),
+                a['props'] = {'description': rnd.choice(['first line\n\nmore text', 'short', 'with "quotes" and \\ backslash']),
                               'group': rnd.choice(['', 'g1', 'grp2']), 'visibility': rnd.choice([1, 2, 3])}
         if rnd.random() < 0.6:
             modprops[m] = {'description': rnd.choice(['module text', 'other\ntext']), 'group': rnd.choice(['', 'mg']),
@@ -460,14 +468,14 @@ def _random_node(seed):
     names = [(m, n) for m in desc for n in desc[m]]
     attrs = [(m, a) for m in shape for a in shape[m]]
     hidden = [(m, x['cls']['wire']) for m in shape for x in shape[m].values()
-              if 'wire' in (x.get('cls') or {}) and x['cls']['wire'] != x['wire']]
+              if (x.get('cls') or {}).get('wire') and x['cls']['wire'] != x['wire']]
     for _ in range(rnd.randint(25, 50)):
         r = rnd.random()
         if r < 0.12:       # undescribed names
             m, a = rnd.choice(attrs + [('zz', 'target'), ('h', '_pa'), ('h', 'target'), ('m', 'nope')] + 3 * hidden)
             act = rnd.choice(['read', 'change', 'do', 'activate'])
             p.request(act, m, rnd.choice([a, a, '']) if act == 'activate' and m in ('zz', 'h') else a,
-                      1 if act == 'change' else None)
+                      7 if act == 'change' else None, _strict(shape, m, a))
             continue
         m, n = rnd.choice(names)
         d = desc[m][n]
@@ -516,7 +524,7 @@ def _random_node(seed):
                                                         'visibility': vis[mp.get('visibility', 'user')],
                                                         'meaning': mp.get('meaning')}.get),
                               'acc': acc_props}
-    return {'trace': p.trace(expect), 'hidden': [list(h) for h in hidden]}
+    return {'trace': p.trace(expect), 'hidden': [list(h) for h in hidden], 'shape': shape}
 
 
 # ---- code -> spec: shipped configurations
@@ -682,10 +690,14 @@ def _fresh_map(fn, items):
 
 # ------------------------------------------------------------------ check
 
-def _sig(tr, l, clause, world, hidden=()):
+def _sig(tr, l, clause, world, hidden=(), shape=None):
     ev = tr[l - 1]
     if l == 1:
-        return {'module': 'Describe', 'clause': clause, 'world': world}
+        sig = {'module': 'Describe', 'clause': clause, 'world': world}
+        if shape and clause == 'DescriptionFaithful':
+            sig['constants'] = sorted({x['dt']['t'] for accs in shape.values() for x in accs.values()
+                                       if x['kind'] == 'param' and x['const'] != NULL})
+        return sig
     req = ev['req']
     d = tr[0]['desc'].get(req['mod'], {}).get(req['name'] or dc.wire_of(req))
     dt = 'undescribed' if d is None else (d['dt'] if d['kind'] == 'param' else d['arg'])['t']
@@ -693,6 +705,10 @@ def _sig(tr, l, clause, world, hidden=()):
                                                            ':ro' if d.get('ro') else '')
     if [req['mod'], req['name']] in list(hidden):
         target = 'cfg-hidden'
+    if shape:        # generated node: the generator knows where the final accessible comes from
+        t2 = dc.signature(shape, req, [clause], ev, {})['target']
+        if t2.startswith('cfg-'):
+            target = t2
     return {'module': 'Describe', 'clause': clause, 'act': req['act'], 'target': target, 'dt': dt,
             'payload': dc.payload_class(req['payload'], ev['prev'], dt), 'obs': ev['cls'], 'world': world}
 
@@ -715,7 +731,7 @@ def run(chk):
     nodes = r.printed('NODE')
     if not nodes:
         raise MachineryError('Gen_Describe printed nothing')
-    traces, worlds = [], []
+    traces, worlds, shapes = [], [], []
     for nd, tr in zip(nodes, pool_map(_run_node, nodes)):
         if isinstance(tr, dict):          # the node could not be built at all
             chk.case('generated:' + json.dumps(nd['sid']), True)
@@ -723,6 +739,7 @@ def run(chk):
                           {'world': 'generated:' + json.dumps(nd['sid']), 'error': tr['build_error'], 'shape': nd['shape']})
             continue
         traces.append(tr)
+        shapes.append(nd['shape'])
         worlds.append('generated:' + json.dumps(nd['sid']))
 
     n = 60 if quick else 1500
@@ -730,6 +747,7 @@ def run(chk):
     for x in pool_map(_random_node, [chk.seed * 1000003 + i for i in range(n)]):
         traces.append(x['trace'])
         hidden.append(x['hidden'])
+        shapes.append(x['shape'])
     worlds += ['generated:random'] * n
 
     res = _fresh_map(_shipped, SHIPPED_QUICK if quick else SHIPPED_THOROUGH)
@@ -750,7 +768,7 @@ def run(chk):
     for ti, l, clause in devs:
         tr = traces[ti]
         world = worlds[ti].split(':')[0]
-        chk.violation(_sig(tr, l, clause, world, hidden[ti]), {'world': worlds[ti], 'failed_at': l, 'clause': clause,
+        chk.violation(_sig(tr, l, clause, world, hidden[ti], shapes[ti] if ti < len(shapes) else None), {'world': worlds[ti], 'failed_at': l, 'clause': clause,
                                                   'describe': tr[0], 'event': tr[l - 1]})
     chk.sample({'describe_record': {k: v for k, v in traces[0][0].items() if k != 'expdesc'}})
     chk.sample({'event': traces[0][5]})
